@@ -78,11 +78,34 @@ Section Step.
     | [] => acc
     | x :: tl => sum_others_acc (if Nat.eqb k skip then acc else acc + x) (S k) skip tl
     end.
-  Definition sum_others (k skip : nat) (I : list T) : T := sum_others_acc (# 0) k skip I.
+  (* CPython >= 3.12: the builtin sum() over exact Python floats is Neumaier-compensated
+     (Python/bltinmodule.c: t = s + x; c += |s| >= |x| ? (s - t) + x : (x - t) + s; at the end s + c when c is
+     non-zero and finite).  The first addend is added to the int 0 by the generic path.  numpy scalars are not
+     exact floats and take the plain left-to-right path above.  Which of the two runs depends on the type of the
+     values the user's current function returns, so the model carries a flag. *)
+  Definition o_abs (x : T) : T := if o_ltb O x (# 0) then - x else x.
+  Fixpoint nsum_others (st : option (T * T)) (k skip : nat) (I : list T) : T :=
+    match I with
+    | [] => match st with
+            | None => # 0
+            | Some (s, c) => if (negb (o_eqb O c (# 0)) && o_isfin O c)%bool then s + c else s
+            end
+    | x :: tl =>
+        if Nat.eqb k skip then nsum_others st (S k) skip tl
+        else match st with
+             | None => nsum_others (Some (# 0 + x, # 0)) (S k) skip tl
+             | Some (s, c) =>
+                 let t := s + x in
+                 nsum_others (Some (t, if o_leb O (o_abs x) (o_abs s) then c + ((s - t) + x) else c + ((x - t) + s)))
+                             (S k) skip tl
+             end
+    end.
+  Definition sum_others (comp : bool) (k skip : nat) (I : list T) : T :=
+    if comp then nsum_others None k skip I else sum_others_acc (# 0) k skip I.
   (* sum(currents[name] for name != terminal.name), in terminal order, starting from int 0 *)
-  Definition density (ts : list terminal) (I : list T) (t : nat) : T :=
+  Definition density (comp : bool) (ts : list terminal) (I : list T) (t : nat) : T :=
     match nth_error ts t with
-    | Some tm => ((- # 1) / t_len tm) * sum_others 0 t I
+    | Some tm => ((- # 1) / t_len tm) * sum_others comp 0 t I
     | None => # 0
     end.
 
@@ -90,23 +113,23 @@ Section Step.
     fun b => if existsb (Nat.eqb b) edges then v else muB b.
 
   (* state: cached densities (one per terminal) and the boundary vector *)
-  Fixpoint update_terms (k : nat) (ts all : list terminal) (I : list T) (cache : list T) (muB : nat -> T)
+  Fixpoint update_terms (comp : bool) (k : nat) (ts all : list terminal) (I : list T) (cache : list T) (muB : nat -> T)
     : list T * (nat -> T) :=
     match ts, cache with
     | tm :: tl, c :: cs =>
-        let d := density all I k in
+        let d := density comp all I k in
         let '(cs', muB') :=
-          update_terms (S k) tl all I cs (if o_eqb O d c then muB else write_edges muB (t_edges tm) d) in
+          update_terms comp (S k) tl all I cs (if o_eqb O d c then muB else write_edges muB (t_edges tm) d) in
         ((if o_eqb O d c then c else d) :: cs', muB')
     | _, _ => ([], muB)
     end.
-  Definition update_mu_boundary (ts : list terminal) (I : list T) (st : list T * (nat -> T)) :=
-    update_terms 0 ts ts I (fst st) (snd st).
+  Definition update_mu_boundary (comp : bool) (ts : list terminal) (I : list T) (st : list T * (nat -> T)) :=
+    update_terms comp 0 ts ts I (fst st) (snd st).
 
   (* from scratch: every terminal edge gets its terminal's density, every other edge 0 *)
-  Fixpoint muB_scratch (k : nat) (ts all : list terminal) (I : list T) : nat -> T :=
+  Fixpoint muB_scratch (comp : bool) (k : nat) (ts all : list terminal) (I : list T) : nat -> T :=
     match ts with
     | [] => fun _ => # 0
-    | tm :: tl => write_edges (muB_scratch (S k) tl all I) (t_edges tm) (density all I k)
+    | tm :: tl => write_edges (muB_scratch comp (S k) tl all I) (t_edges tm) (density comp all I k)
     end.
 End Step.
